@@ -81,3 +81,11 @@ pub proof fn lemma_one_bit_index(k: u64, s: u32)
     let a = s as u64;
     assert(a == t) by(bit_vector) requires a < 64, t < 64, k != 0, k & ((k - 1) as u64) == 0, ((k >> a) & 1) == 1, ((k >> t) & 1) == 1;
 }
+/// bit semantics of `x & !y`, for all operands (so that it applies to unnamed intermediate values)
+pub proof fn lemma_bit_andnot_all()
+    ensures forall|x: u64, y: u64, t: u32| t < 64 ==> (#[trigger] bit_set(x & !y, t) == (bit_set(x, t) && !bit_set(y, t)))
+{
+    assert forall|x: u64, y: u64, t: u32| t < 64 implies (#[trigger] bit_set(x & !y, t) == (bit_set(x, t) && !bit_set(y, t))) by {
+        lemma_bit_andnot(x, y);
+    }
+}
